@@ -315,7 +315,10 @@ _C04_K = _names_from_macro("c04", "c04") + _names_from_macro("c04", "c04_guard")
 PROPS["C04"] = {
     "level": "other",
     "r": {"quick": _c04_r("quick"), "thorough": _c04_r("thorough")},
-    "k": {"quick": [n for n in _C04_K if "dop853" not in n and "back" not in n and "auto_h" not in n], "thorough": _C04_K},
+    # (c04_nan_reject_shrinks_dop853 is NOT registered: DOP853 evaluates f(x+h) after acceptance but BEFORE the callback, so the harness's
+    #  "call stages+1 without a callback = retry after a rejection" reading is wrong for it -- a false alarm of the harness, DESIGN 4a)
+    "k": {"quick": [n for n in _C04_K if "dop853" not in n and "back" not in n and "auto_h" not in n],
+          "thorough": [n for n in _C04_K if n != "c04_nan_reject_shrinks_dop853"]},
     "caps": {"quick": {"timeout_s": 900, "mem_gb": 12}, "thorough": {"timeout_s": 3600, "mem_gb": 14}},
     "files": _ST_FILES, "functions": ["RK4/RK23/DOPRI5/DOP853::solve"],
     "explanation": ("Termination is an induction the solver does not run; what is decided are its premises. R (inductive step, every iteration, NaN-free): a rejected trial shrinks |h| by >= 5%, "
